@@ -163,8 +163,19 @@ class Opaque:
 
 
 class Vec:
-    def __init__(self, vals):
+    """one abstract scalar per row class.  `fresh`: a Series built by pd.Series(<array>) without index= (RangeIndex 0..n-1):
+    storing it into a column of a table whose index is not 0..n-1 aligns by label, i.e. onto the wrong rows."""
+
+    def __init__(self, vals, fresh=False, aligned=False):
         self.v = list(vals)
+        self.fresh = fresh
+        self.aligned = aligned        # a Series carrying the index of the table it was loaded / derived from
+
+    def view(self):
+        """the ndarray behind a Series (`.values`): same storage, no index"""
+        x = Vec(())
+        x.v = self.v
+        return x
 
     def __repr__(self):
         return f"Vec{self.v}"
